@@ -11,6 +11,8 @@ func init() {
 		Parts: []partSpec{
 			{Name: "crashpoints", Flavour: "plain", TimeoutQ: m10, TimeoutT: m60, Weight: 10},
 			{Name: "shutdown", Flavour: "race", TimeoutQ: m10, TimeoutT: m60, Weight: 6},
+			{Name: "instants", Flavour: "plain", TimeoutQ: m10, TimeoutT: m60, Weight: 4},
+			{Name: "diskfull", Flavour: "plain", TimeoutQ: m10, TimeoutT: m60, Weight: 1},
 		},
 	}
 }
